@@ -301,6 +301,39 @@ fn invariance(em: &mut Emitter, rng: &mut Rng, n: usize) {
             }
         }
     }
+    // immediates in the list form of `push`: the root of `push.a.b.c` is the root of `push.a push.b
+    // push.c` (same operations, same immediates), and changing one value of the list changes the root;
+    // values at and around the encoding-width boundaries of the list form, in every position
+    let mut bounds: Vec<u64> = vec![0, 1, 2, 254];
+    for k in [7u32, 8, 9, 15, 16, 17, 31, 32, 33, 63] {
+        let p2 = 1u64 << k;
+        bounds.extend([p2 - 1, p2, p2 + 1]);
+    }
+    let mut list_checked = 0u64;
+    for len in 2..=8usize {
+        for (bi, b) in bounds.iter().copied().enumerate() {
+            if (len + bi + n) % 2 != 0 {
+                continue;
+            }
+            let pos = rng.below(len as u64) as usize;
+            let vals: Vec<u64> = (0..len).map(|i| if i == pos { b } else { rng.below(200).min(b) }).collect();
+            let list = format!("begin push.{} end", vals.iter().map(|v| v.to_string()).collect::<Vec<_>>().join("."));
+            let singles = format!("begin {} end", vals.iter().map(|v| format!("push.{}", v)).collect::<Vec<_>>().join(" "));
+            let mut other = vals.clone();
+            other[pos] = if b == 0 { 3 } else { 0 };
+            let changed = format!("begin push.{} end", other.iter().map(|v| v.to_string()).collect::<Vec<_>>().join("."));
+            if let (Ok(pl), Ok(ps), Ok(pc)) = (compile(&list, false), compile(&singles, false), compile(&changed, false)) {
+                list_checked += 1;
+                if pl.hash() != ps.hash() {
+                    em.oracle_failures.push(format!("C08 root of `{}` differs from the root of `{}` (same operations and immediates)", list, singles));
+                }
+                if pl.hash() == pc.hash() {
+                    em.oracle_failures.push(format!("C08 root unchanged although an immediate differs: `{}` vs `{}`", list, changed));
+                }
+            }
+        }
+    }
+    em.stat("push_list_root_checks", list_checked);
     em.stat("invariance_same_root_checks", same_checked);
     em.stat("sensitivity_checks", diff_checked);
 }
